@@ -1,5 +1,6 @@
 import OapiVerif.Model.Filter
 import OapiVerif.Props.C15
+import OapiVerif.Gen.Pipeline
 /-!
 C16 — Tag and operation-id filtering is exact.
 Tie: CORR through `VerifFilterByTag` / `VerifFilterByOperationID` and through `Generate`
@@ -100,6 +101,19 @@ theorem C16_prune_drops_unneeded (cfg : Cfg) (ops : List Op) (comps : List Comp)
   rcases this with ⟨op, hop, hr⟩ | ⟨c', hc', ho⟩
   · left; exact ⟨op, ((C16_mem_iff cfg ops op).mp hop).1, ((C16_mem_iff cfg ops op).mp hop).2, hr⟩
   · right; exact ⟨c', hc', ho⟩
+
+/-- **What the consumers of `Generate` see is the filtered and pruned document of the theorems above**: the stage list
+`Gen/Pipeline.lean` is read from codegen.go on every run (harness/pipeline.go); run on the model's document it hands every
+consumer — `OperationDefinitions` (server interface, router, client), the type definitions, the inlined specification — the
+operations `filterDoc` keeps and, unless skip-prune is set, the components `prune` keeps for them. A filter moved behind the
+pruning, behind a consumer, or dropped, breaks this proof. -/
+theorem C16_pipeline_translated (cfg : Cfg) (skipPrune : Bool) (ops : List Op) (comps : List OapiVerif.Prune.Comp) :
+    (Pipeline.seenByConsumers cfg skipPrune Gen.Pipeline.stages ⟨ops, comps⟩ false).map (fun s => (s.ops, s.comps)) =
+      some (filterDoc cfg ops,
+        if skipPrune then comps else (OapiVerif.Prune.prune (docOf cfg ops comps)).comps) := by
+  unfold Gen.Pipeline.stages
+  simp only [Pipeline.seenByConsumers, Pipeline.isConsumer, Pipeline.step, Pipeline.pruned]
+  cases skipPrune <;> simp [filterDoc, docOf]
 
 /-! Non-vacuity. -/
 def exOps : List Op :=
